@@ -123,6 +123,8 @@ class Server:
         self.base["public"] = ({k: v for k, v in d.items()
                                 if not C.key_is_internal(k) and k not in slots}, set())
         # sets are not JSON; children inherit this object through fork
+        from . import child
+        child.preinstall_monitor()
         self.cache_dir = cache_dir
         self.mem = {}
         self.stats = {"golden_evals": 0, "golden_mem_hits": 0, "golden_disk_hits": 0,
@@ -228,10 +230,12 @@ class Server:
         while grew:
             grew = False
             for a in allc:
-                b = a.get("base", "")
-                if a["name"] in need and b.startswith("adhoc.") and b[6:] not in need:
-                    need.add(b[6:])
-                    grew = True
+                if a["name"] not in need:
+                    continue
+                for b in [a.get("base") or ""] + list(a.get("bases") or ()):
+                    if b.startswith("adhoc.") and b[6:] not in need:
+                        need.add(b[6:])
+                        grew = True
         return [{k: v for k, v in a.items() if k != "dynamic"} for a in allc
                 if a["name"] in need]
 
